@@ -551,7 +551,7 @@ def obs_record(d):
                fls(d["o_pe"]), fl(d["o_nfix"])))
 
 
-HDR = ["From Coq Require Import ZArith List Bool Floats.", "From Hermes Require Import Num CropModel CropNModel DevModel C09Corr.",
+HDR = ["From Coq Require Import ZArith List Bool Floats.", "From Hermes Require Import Num CropModel CropNModel DevModel RootDistModel C09Corr.",
        "Import ListNotations.", "Open Scope float_scope."]
 GROUPS = ["stage", "REDUK", "organs", "pool/biomass", "root-depth", "N-uptake", "bookkeeping", "GEHOB/WUGEH", "N-content-functions"]
 
@@ -627,6 +627,40 @@ def dev_correspond(ctx, corr, days, shard=400):
             corr.mismatches.append({"kind": "coverage", "what": "no traced day for the development-rate case " + need})
 
 
+def rootdist_correspond(ctx, corr, days, shard=150):
+    """root distribution block (RootDistModel): WUDICH and WUANT of every rooted layer on every emitted grown day"""
+    pts = [d for d in days if d["grown"] and "r_hi" in d]
+    for d in pts:
+        if not d["r_ok"]:
+            corr.mismatches.append({"kind": "mirror-mismatch", "what": "effective Qrez (crop.go:597-606)", "crop": d["crop"], "zeit": d["zeit"], "line": d["line"]})
+            break
+    recs = ["{| rdo_zrk := %s; rdo_wumas := %s; rdo_pi := %s; rdo_dz := %s; rdo_es := [%s]; rdo_o_wudich := %s; rdo_o_wuant := %s |}"
+            % (b(d["zrk"]), fl(d["o_wumas"]), fl(d["r_pi"]), fl(d["dz"]), "; ".join("(%s, %s)" % (fl(h), fl(l)) for h, l in zip(d["r_hi"], d["r_lo"])),
+               fls(d["wudich"]), fls(d["r_o_wuant"])) for d in pts]
+    items = []
+    for k in range(0, len(recs), shard):
+        body = HDR + ["Definition cases : list rootdist_obs := [\n%s\n]." % ";\n".join(recs[k:k + shard]),
+                      "Definition M := Eval vm_compute in rootdist_mismatches %d%%nat cases." % k, "Print M."]
+        items.append(("Cases_c09root_%d" % (k // shard), "\n".join(body) + "\n"))
+    for nm, rc2, o in ctx.coq_eval_many(items, timeout=900):
+        m = re.search(r"M\s*=\s*(.*?)\s*:\s*list \(nat \* nat\)", o, re.S)
+        if rc2 != 0 or not m:
+            corr.mismatches.append({"kind": "coq-eval", "shard": nm, "output": o[-1500:]})
+            continue
+        pairs = re.findall(r"\(\s*(\d+)(?:%nat)?\s*,\s*(\d+)(?:%nat)?\s*\)", m.group(1))
+        if m.group(1).strip() != "[]" and not pairs:
+            corr.mismatches.append({"kind": "coq-eval", "shard": nm, "output": o[-1500:]})
+        for idx, mask in pairs[:10]:
+            d = pts[int(idx)]
+            corr.mismatches.append({"kind": "root-distribution-kernel", "differs": [n for j, n in enumerate(["WUDICH", "WUANT"]) if int(mask) >> j & 1],
+                                    "crop": d["crop"], "zeit": d["zeit"], "line": d["line"], "case": {k: d[k] for k in ("o_wumas", "qrez", "o_wurz", "wudich", "r_o_wuant")}})
+    corr.cases += len(recs)
+    corr.dist["root-distribution-days"] = len(recs)
+    corr.dist["root-distribution:layers"] = sum(len(d["r_hi"]) for d in pts)
+    corr.dist["root-distribution:beet-or-potato"] = sum(1 for d in pts if d["zrk"])
+    corr.dist["root-distribution:roots-in-layer-20"] = sum(1 for d in pts if len(d["r_hi"]) >= 20)
+
+
 def dl_run(ctx):
     return waterlib.run_harness(ctx, "c09dl", ["-seed", str(ctx.seed), "-n", "4000" if ctx.thorough else "500"])
 
@@ -694,6 +728,7 @@ def correspond(ctx):
     days = [x for x in cases if x["k"] == "day"]
     eval_cases(ctx, c, days)
     dev_correspond(ctx, c, days)
+    rootdist_correspond(ctx, c, days)
     seen = set()
     for d in days:
         c.bump("crop=" + d["crop"])
